@@ -135,3 +135,78 @@ def align(case, obs):
             if p < len(obs) and obs[p][0] == 'ctx':
                 res.append((c, obs[p][1], p)); pos = p + 1
     return res
+
+
+class Track:
+    """what the test itself knows: replays the command list against the observation stream and records,
+    per statement id: thread, logger, level, issue clock, outcome (accepted / dropped / filtered / parked),
+    the stream position where its call returned; plus sink writes / flushes / notes with positions."""
+    def __init__(self, case, obs):
+        self.case = case; self.obs = obs
+        self.stmts = {}      # id -> dict
+        self.flushes = {}    # id -> dict(thread, start_pos, ret_pos)
+        self.writes = []     # (pos, sink, id, level)
+        self.sflush = []     # (pos, sink)
+        self.notes = []      # (pos, kind, n)
+        self.ctx = []        # (pos, n)
+        self.exits = []      # (pos, thread)
+        self.ok = obs is not None
+        if not self.ok: return
+        for p, o in enumerate(obs):
+            if o[0] == 'write': self.writes.append((p, o[1], o[2], o[3]))
+            elif o[0] == 'sflush': self.sflush.append((p, o[1]))
+            elif o[0] == 'note': self.notes.append((p, o[1], o[2]))
+            elif o[0] == 'ctx': self.ctx.append((p, o[1]))
+        clock = CLOCK0
+        levels = {i: l for i, (l, _) in enumerate(case.loggers)}
+        pending = {}          # thread -> ('log', id) | ('flush', id)
+        dead = set()
+        al = align(case, obs)
+        k = 0
+        def handle(c):
+            nonlocal clock, k
+            kind = c[0]
+            if kind == 'tick': clock += c[1]; return
+            if kind == 'setlevel': levels[c[1]] = c[2]; return
+            if kind in ('setsinklevel',): return
+            if kind in ('log', 'resume', 'flush', 'exit', 'ctx'):
+                if k >= len(al) or al[k][0] is not c:
+                    return
+                code, pos = al[k][1], al[k][2]; k += 1
+                if kind == 'log':
+                    t, i, lgi, lvl = c[1], c[2], c[3], c[4]
+                    d = dict(thread=t, logger=lgi, level=lvl, ts=clock, size=c[5], mode=c[6], pos=pos, outcome=None, ret=None)
+                    self.stmts[i] = d
+                    if t in pending or t in dead: d['outcome'] = 'ignored'
+                    elif lvl < levels[lgi]: d['outcome'] = 'filtered'
+                    elif code == 2: d['outcome'] = 'parked'; pending[t] = ('log', i)
+                    elif code == 1: d['outcome'] = 'accepted'; d['ret'] = pos
+                    else: d['outcome'] = 'dropped'; d['ret'] = pos
+                elif kind == 'flush':
+                    t, i = c[1], c[2]
+                    f = dict(thread=t, start=pos, ret=None, ts=clock)
+                    if t in pending or t in dead: f['ignored'] = True
+                    else:
+                        self.flushes[i] = f
+                        if code == 2: pending[t] = ('flush', i)
+                        else: f['ret'] = pos
+                elif kind == 'resume':
+                    t = c[1]
+                    if t in pending:
+                        what, i = pending[t]
+                        if code != 2:
+                            del pending[t]
+                            if what == 'log':
+                                self.stmts[i]['outcome'] = 'accepted' if code == 1 else 'dropped'; self.stmts[i]['ret'] = pos
+                            else:
+                                self.flushes[i]['ret'] = pos
+                elif kind == 'exit':
+                    t = c[1]
+                    if code == 1: dead.add(t); self.exits.append((pos, t))
+        for c in case.cmds:
+            if c[0] == 'poll':
+                for (_, _, cs) in c[1]:
+                    for s in cs: handle(s)
+            else:
+                handle(c)
+        self.pending = pending
